@@ -50,30 +50,41 @@ static void worker(const Shared* S, const std::vector<Op>* ops, std::vector<Rec>
   }
 }
 
+static bool harmonic_family(const std::string& c) {
+  return c.compare(0, 17, "SphericalHarmonic") == 0 || c.compare(0, 12, "GravityModel") == 0 || c.compare(0, 13, "MagneticModel") == 0; }
+
 struct Picker {
   std::vector<double> cum; double tot = 0;
-  explicit Picker(const std::vector<Op>& ops, const std::string& focus = "", double boost = 1) {
-    for (auto& o : ops) { tot += o.w * ((!focus.empty() && o.cls == focus) ? boost : 1.0); cum.push_back(tot); } }
+  // focus: one class boosted; family: the whole harmonic family boosted; circles = false: operations on pre-built circles excluded
+  explicit Picker(const std::vector<Op>& ops, const std::string& focus, double boost, bool circles, bool family) {
+    for (auto& o : ops) {
+      double w = o.w * (((!focus.empty() && o.cls == focus) || (family && harmonic_family(o.cls))) ? boost : 1.0);
+      if (o.needs_circle && !circles) w = 0;
+      tot += w; cum.push_back(tot); } }
   uint32_t pick(Rng& r) const { double x = r.u() * tot; return (uint32_t)(std::lower_bound(cum.begin(), cum.end(), x) - cum.begin()); }
 };
 
 static std::vector<std::string> g_classes;
 static const int Ts[4] = {2, 4, 8, 16};
 
-// focus_cls >= 0: directed trial hammering one class
-static void trial(vh::Ctx& ctx, uint64_t idx, int T, int focus_cls) {
+static int g_freshdeg = 30;      // per process: strictly increasing degree of Shared::shfresh
+
+// focus_cls >= 0: directed trial hammering one class; fresh: meant to be the ONLY trial of its process (checks/C14.py runs
+// section "fresh" with --only): nothing harmonic is evaluated before the barrier and the harmonic family is hammered
+static void trial(vh::Ctx& ctx, uint64_t idx, int T, int focus_cls, bool fresh = false) {
   const std::vector<Op>& ops = registry();
   { char b[160]; int n = std::snprintf(b, sizeof b, "@@C14 case %s %llu seed %llu\n", ctx.section, (unsigned long long)idx, (unsigned long long)ctx.seed);
     ssize_t w = write(2, b, n); (void)w; }
   Rng& r = ctx.rng;
-  Params P = make_params(r, g_dir);
+  Params P = make_params(r, g_dir);          // NB first use of ctx.rng: the --alone helper re-derives P the same way
+  g_freshdeg += 1 + (int)(idx % 3); P.freshdeg = g_freshdeg; P.prebuilt_circles = !fresh;
   int nops = ctx.quick() ? r.range(200, 700) : r.range(200, 2000);
   // mode 0: all operations by weight; 1: 90+% of the calls on one class (different plan per thread);
   // 2: one class, and every thread executes the SAME operation sequence (different inputs), so that
   //    the first (cold) call of every operation happens on all threads at once
-  int mode = focus_cls >= 0 ? 1 + (int)(idx & 1) : (r.u() < 0.35 ? 0 : r.u() < 0.6 ? 1 : 2);
-  std::string focus = focus_cls >= 0 ? g_classes[focus_cls] : mode ? g_classes[r.below(g_classes.size())] : "";
-  Picker pk(ops, focus, mode == 0 ? 1.0 : 400.0);
+  int mode = (focus_cls >= 0 || fresh) ? 1 + (int)(idx & 1) : (r.u() < 0.35 ? 0 : r.u() < 0.6 ? 1 : 2);
+  std::string focus = fresh ? "" : focus_cls >= 0 ? g_classes[focus_cls] : mode ? g_classes[r.below(g_classes.size())] : "";
+  Picker pk(ops, focus, mode == 0 ? 1.0 : 400.0, P.prebuilt_circles, fresh);
   std::vector<std::vector<Rec>> recs(T);
   std::vector<uint32_t> common;
   if (mode == 2) for (int k = 0; k < nops; ++k) common.push_back(pk.pick(r));
@@ -121,6 +132,21 @@ static void trial(vh::Ctx& ctx, uint64_t idx, int T, int focus_cls) {
                  .str("concurrent_str", rc.r.s).str("alone_str", alone.s).i("mode", mode).obj("params", params_json(P)));
       }
     }
+  // ---- samples for the fresh-process "alone" reference (judged by checks/C14.py with `C14 --alone ...`): in a directed
+  // trial the first execution of EVERY operation of the focus class, and in every trial a rotating 1/16 of the operations
+  {
+    std::vector<char> seen(ops.size(), 0);
+    for (int t = 0; t < T; ++t)
+      for (int k = 0; k < nops; ++k) {
+        Rec& rc = recs[t][k]; if (seen[rc.op]) continue; seen[rc.op] = 1;
+        const Op& op = ops[rc.op];
+        bool want = (focus_cls >= 0 && op.cls == focus) || (fresh && harmonic_family(op.cls)) || ((rc.op + idx) % 16 == 0);
+        if (!want) continue;
+        std::fprintf(ctx.out, "%s\n", vh::J().str("t", "alone").str("section", ctx.section).u("idx", idx).u("seed", ctx.seed).str("op", op.name)
+                     .u("opseed", rc.seed).i("freshdeg", P.freshdeg).i("threads", T).str("res", reshex(rc.r)).done().c_str());
+      }
+    std::fflush(ctx.out);
+  }
   ctx.obs("determinism: calls per trial whose concurrent result differs from the result alone (count; tolerance 0)", (double)nmis,
           vh::J().i("threads", T).i("ops_per_thread", nops));
   // ---- overlap evidence: calls of different threads whose [begin,end] sequence intervals intersect
@@ -162,6 +188,16 @@ int main(int argc, char** argv) {
   c14f::TmpDir tmp;
   if (tmp.path.empty()) { std::fprintf(stderr, "cannot create scratch dir\n"); return 2; }
   g_dir = tmp.path;
+  // ---- fresh-process reference:  C14 --alone <section> <idx> <seed> <op> <opseed> <freshdeg>
+  // re-derives the trial's parameters, constructs ONLY what that one operation touches (lazy objects) and executes ONLY that call
+  if (argc == 8 && std::string(argv[1]) == "--alone") {
+    uint64_t idx = std::strtoull(argv[3], nullptr, 10), seed = std::strtoull(argv[4], nullptr, 10), opseed = std::strtoull(argv[6], nullptr, 10);
+    Rng r(vh::hmix(vh::hmix(vh::mix64(seed), vh::hstr(argv[2])), idx));
+    Params P = make_params(r, g_dir); P.freshdeg = std::atoi(argv[7]);
+    for (auto& o : registry()) if (o.name == argv[5]) {
+      Shared S(P, true); Res res; exec(o, &S, opseed, res); std::printf("%s\n", reshex(res).c_str()); return 0; }
+    std::fprintf(stderr, "no operation %s\n", argv[5]); return 3;
+  }
   for (auto& o : registry()) if (std::find(g_classes.begin(), g_classes.end(), o.cls) == g_classes.end()) g_classes.push_back(o.cls);
   const uint64_t ncls = g_classes.size();
   if (std::getenv("VERIF_C14_PRETOUCH")) {
@@ -175,6 +211,8 @@ int main(int argc, char** argv) {
   S.push_back(vh::Section{"focus", ncls, 4 * ncls, false, [ncls](vh::Ctx& c, uint64_t i) {
     trial(c, i, Ts[(i + i / 4 + i / 16 + i / ncls + c.seed) % 4], (int)(i % ncls)); }, 1800});
   S.push_back(vh::Section{"trial", 90, 1500, true, [](vh::Ctx& c, uint64_t i) { trial(c, i, Ts[(i + i / 4 + i / 16) % 4], -1); }, 1800});
+  // one trial per PROCESS, run by checks/C14.py through --only fresh:<i> (0 cases in the ordinary shards)
+  S.push_back(vh::Section{"fresh", 0, 0, false, [](vh::Ctx& c, uint64_t i) { trial(c, i, Ts[(i + i / 4) % 4], -1, true); }, 1800});
   int rc = vh::run_sections(argc, argv, S);
   return rc;
 }
